@@ -181,7 +181,9 @@ def jobs(tier):
     out = []
     for depth in (1, 2, 3):
         for ssets in itertools.product(SCHEMA_SET, repeat=depth):
-            kinds = list(KINDS) if depth < 3 or tier == "thorough" else [k for k in KINDS if not k.startswith("bytes")]
+            kinds = list(KINDS)
+            if tier != "thorough":      # quick: every kind at depth 1, all but the bytes kinds at depth 2, three kinds at depth 3
+                kinds = list(KINDS) if depth == 1 else ([k for k in KINDS if not k.startswith("bytes")] if depth == 2 else ["int", "str", "bool-t"])
             out.append({"name": "d%d/%s" % (depth, "-".join(ssets)), "depth": depth, "ssets": list(ssets), "kinds": kinds, "tier": tier})
     few = ["int", "str"] if tier != "thorough" else list(KINDS)
     for depth in (2, 3):
@@ -288,6 +290,8 @@ def _world(ctx, job, cc, depth, ssets, fset, kind, with_default, var, only_hist)
     for hist in histories():
         if only_hist is not None and hist != only_hist:
             continue
+        if job.get("style") and job.get("tier") != "thorough" and len(hist) > 1 and only_hist is None:
+            continue        # quick: the construction-style variants run the histories of at most one operation
         ctx.transitions += 1
         _setenv(env)
         schema, field = build(cc, ssets, fset, depth, kind, with_default)
